@@ -36,6 +36,7 @@ func parserFieldsTouched(fn *ssa.Function) map[string]bool {
 }
 
 func c20a(c *Ctx) {
+	c20aClosed(c)
 	type helper struct{ fn, field, kind string }
 	for _, h := range []helper{
 		{"parser.Parser.pushBreakStack", "breakStack", "push"}, {"parser.Parser.popBreakStack", "breakStack", "pop"}, {"parser.Parser.peekBreakStack", "breakStack", "peek"},
@@ -283,6 +284,64 @@ func c20a(c *Ctx) {
 			}
 		}
 	}
+}
+
+// c20aClosed: the scope stacks are the six helpers' business and the three scope statements'.
+// Nobody else reads or writes the two fields, and nobody else pushes or pops (directly or through
+// a wrapper whose every caller is one of the three).
+func c20aClosed(c *Ctx) {
+	helpers := map[string]bool{"pushBreakStack": true, "popBreakStack": true, "peekBreakStack": true, "pushContinueStack": true, "popContinueStack": true, "peekContinueStack": true}
+	sites := map[string]bool{"parseWhileStatement": true, "parseDoWhileStatement": true, "parseSwitchStatement": true}
+	nTouch, nCalls := 0, 0
+	for _, fn := range c.W.Funcs {
+		if isTestFunc(c.W, fn) || len(fn.Blocks) == 0 {
+			continue
+		}
+		k := 0
+		instrs(fn, func(in ssa.Instruction) {
+			fa, ok := in.(*ssa.FieldAddr)
+			if !ok || !typeIs(fa.X.Type(), "parser", "Parser") {
+				return
+			}
+			f := fieldName(fa.X.Type(), fa.Field)
+			if f != "breakStack" && f != "continueStack" {
+				return
+			}
+			nTouch++
+			if helpers[fn.Name()] && c.W.PkgShort(fn) == "parser" {
+				return
+			}
+			// a parser under construction may set its empty stacks
+			if _, fresh := fa.X.(*ssa.Alloc); fresh {
+				return
+			}
+			k++
+			c.Bad(fmt.Sprintf("stacks-closed/%s/%s#%d", c.W.FuncKey(fn), f, k), c.W.Pos(fa.Pos()), c.W.FuncKey(fn)+" touches the parser's "+f+" directly: only the push / pop / peek helpers do, so that every scope that is entered is left again")
+		})
+		if c.W.PkgShort(fn) == "parser" && helpers[fn.Name()] {
+			continue
+		}
+		for _, ci := range callsIn(fn) {
+			g := callee(ci)
+			if g == nil || c.W.PkgShort(g) != "parser" || !helpers[g.Name()] || strings.HasPrefix(g.Name(), "peek") {
+				continue
+			}
+			nCalls++
+			okCaller := sites[fn.Name()]
+			if !okCaller {
+				// a wrapper: all of its callers are scope statements
+				cs := c.W.callsTo(fn)
+				okCaller = len(cs) > 0
+				for _, cc := range cs {
+					if !sites[cc.Parent().Name()] {
+						okCaller = false
+					}
+				}
+			}
+			c.Check(okCaller, fmt.Sprintf("stacks-closed/%s->%s@%d", fn.Name(), g.Name(), c.T(fn).callOrd[ci]), c.W.Pos(ci.Pos()), "scopes are pushed and popped by while, do-while and switch only", fn.Name()+" calls "+g.Name()+": only while, do-while and switch statements open and close a break / continue scope (an extra scope makes 'break' and 'continue' bind to the wrong construct, or be accepted outside of any)")
+		}
+	}
+	c.Check(nTouch >= 8 && nCalls >= 8, "stacks-closed/census", "-", fmt.Sprintf("%d accesses to the stack fields, %d push / pop calls", nTouch, nCalls), fmt.Sprintf("only %d accesses to the stack fields and %d push / pop calls found", nTouch, nCalls))
 }
 
 func keysOf(m map[string]bool) []string {
